@@ -100,7 +100,10 @@ def run_sequence(cvxopt, rng, nops, lines, obs):
         def f():
             env[name] = matrix(vals, (m, n), tc); return show_mat(env[name])
         emit('new %s %s %d %d %s' % (name, tc, m, n, ','.join(num_tok(v) for v in vals) or '-'), f)
-    for nm in names[:3]: new(nm)
+    for nm in names[:3]:
+        # one matrix in five is 1x1: the operators treat a 1x1 operand as a scalar on either side (and in place), a path of its own in the C code
+        if rng.random() < 0.2: new(nm, None, 1, 1)
+        else: new(nm)
     def opd(allow_num=True):
         if allow_num and rng.random() < 0.4:
             tc = rng.choice('idz'); v = g.value(tc)
